@@ -7,7 +7,9 @@ enumerates the interleavings (DFS when the tree is small, seeded random otherwis
 lexical: a task must see, at every probe, the environment inherited at its spawn point plus the blocks
 it entered itself - whatever the other tasks are doing at that moment.
 
-Monitors: task-state (plain lookups), task-state-default (lookups with an explicit default).
+Monitors: task-state (plain lookups), task-state-default (lookups with an explicit default), resource-initialiser-state (the
+resources of one scope initialise themselves concurrently, each under a block of its own inside __aenter__: each sees what was visible
+where the scope is being entered plus its own block, never a sibling's).
 """
 
 from __future__ import annotations
@@ -35,7 +37,7 @@ ASSUMPTIONS = [
     "plain asyncio tasks are joined before the block that created them is left (ctx.spawn from a task that outlived its scope is unspecified)",
     "gates stand for external events; the ready queue below them is FIFO",
 ]
-MINIMUMS = {"monitor:task-state": 100000, "conflicting_probes": 2000, "set:schedules": 2000, "tasks_spawned_ctx": 300, "tasks_spawned_asyncio": 300}
+MINIMUMS = {"monitor:task-state": 100000, "monitor:resource-initialiser-state": 1000, "conflicting_probes": 2000, "set:schedules": 2000, "tasks_spawned_ctx": 300, "tasks_spawned_asyncio": 300}
 JOBS = {"quick": 4, "thorough": 16}
 LEVEL_TEXT = (
     "Programs of 2-4 tasks (half started with ctx.spawn, half with asyncio.create_task, at different depths, while the parent keeps entering/leaving blocks) are run under many "
@@ -75,6 +77,11 @@ def gen_program(rng: random.Random, ntasks: int, steps_per_task: int) -> list[di
                 if kind == "ascope" and rng.random() < 0.5:
                     # state arriving through disposables (sometimes the only state of the scope)
                     blk["disposables"] = [{"yield": [[t, g.fresh_uid()] for t in types if rng.random() < 0.6], "enter": rng.choice(["ok", "gate"]), "exit": "ok", "form": rng.choice(["auto", "list"])}]
+                    if rng.random() < 0.5:
+                        # resources that initialise themselves under blocks of their own, concurrently
+                        blk["disposables"].append({"yield": [], "enter": "ok", "exit": "ok"})
+                        for d in blk["disposables"]:
+                            d["enter_block"] = True
                     if rng.random() < 0.6:
                         blk["supply"] = []
                 sub = [min(nops[0], rng.randint(0, 2))]
@@ -119,7 +126,7 @@ def gen_program(rng: random.Random, ntasks: int, steps_per_task: int) -> list[di
                 g.bid += 1
                 blk = {"op": "block", "kind": rng.choice(["sscope", "updated", "ascope"]), "name": f"pb{g.bid}", "supply": supply(), "body": []}
                 if blk["kind"] == "ascope" and rng.random() < 0.4:
-                    blk["disposables"] = [{"yield": [[t, g.fresh_uid()] for t in types if rng.random() < 0.6], "enter": "ok", "exit": "ok"}]
+                    blk["disposables"] = [{"yield": [[t, g.fresh_uid()] for t in types if rng.random() < 0.6], "enter": "ok", "exit": "ok", "enter_block": True} for _ in range(rng.choice([1, 2, 3]))]
                     if rng.random() < 0.5:
                         blk["supply"] = []
                 blk["body"] = [g.probe(), *parent_level(depth + 1, budget), g.probe()]
@@ -162,6 +169,14 @@ def judge(R: Recorder, prog: list[dict[str, Any]], exp: dict[int, Any], W: World
         for mode, ok, where, detail in state_verdicts(e, obs):
             R.monitor("task-state" if mode == "plain" else "task-state-default", ok, where={"kind": "foreign-or-stale-state", **where, "conflict": bool(obs.get("conflict"))},
                       detail=f"probe {pid}: {detail}; schedule={sched.released}", case=case)
+    for rec in W.disposable_views:
+        want_out = W.pre_enter_view.get(rec["owner"])
+        own = (("val", ("R1", rec["own"])), ("val", ("D2", rec["own"])))
+        ok = all(v == own for v in rec["inside"]) and rec["before"] == rec["after"] == rec["later"] == want_out
+        R.count("resource_initialisers_with_own_blocks")
+        R.monitor("resource-initialiser-state", ok, where={"kind": "resource-initialisers-share-context"},
+                  detail=f"resource {rec['idx']} of scope {rec['owner']} (entered where {want_out!r} was visible) saw before its own block {rec['before']!r}, inside it {rec['inside']!r} "
+                         f"(own uid {rec['own']}), after it {rec['after']!r} / {rec['later']!r}", case=case)
     if R.want_sample("run") and conflicts >= 2:
         R.sample({"program": prog, "schedule": list(sched.released), "conflicting_probes": conflicts}, kind="run")
 
